@@ -69,3 +69,73 @@ c16_harness!(c16_id_bytes_after_nul, S_U16_LE, |d, ti, big| {
     d.b[ti - 8 + 3] = 0x79;
     d.b[ti - 4 + 1] = 0x7a;
 });
+
+// ---------------------------------------------------------------------------
+// Re-serialisation of what the parser returned (bytes -> message -> bytes): the
+// writer units applied to the *parser's own result* reproduce the canonical
+// encoding of the input, segment by segment (standard header, extended header,
+// payload). Together with P (canonical bytes parse to that same message) this is
+// the stability claim for the shape, decided in one query per shape without
+// calling Message::as_bytes (which does not finish, DESIGN.md 9.2).
+// ---------------------------------------------------------------------------
+fn seg_same(got: &[u8], want: &[u8], from: usize, to: usize) -> bool {
+    if got.len() != to - from {
+        return false;
+    }
+    let mut i = 0;
+    while i < to - from {
+        if got[i] != want[from + i] {
+            return false;
+        }
+        i += 1;
+    }
+    true
+}
+
+/// `canon`: canonical encoding; `input`: what is parsed (canonical or a dialect form of it).
+fn reserialise_units(s: &Shape, bt: &Built, input: &[u8]) {
+    let canon = bt.buf.slice();
+    let r = dlt_message(input, None, s.storage);
+    match &r {
+        Ok((_, ParsedMessage::Item(m))) => {
+            let big = s.htyp & HTYP_MSBF != 0;
+            let std_end = bt.msg_start + headers_len(s.htyp & !HTYP_UEH);
+            let pay_start = bt.msg_start + headers_len(s.htyp);
+            let hb = m.header.as_bytes();
+            assert!(seg_same(&hb, canon, bt.msg_start, std_end), "re-serialised standard header differs from the canonical bytes");
+            std::mem::forget(hb);
+            if let Some(eh) = &m.extended_header {
+                let eb = eh.as_bytes();
+                assert!(seg_same(&eb, canon, std_end, pay_start), "re-serialised extended header differs from the canonical bytes");
+                std::mem::forget(eb);
+            }
+            let pb = dlt_core::dlt::verif_hooks::payload_as_bytes(&m.payload, big);
+            assert!(seg_same(&pb, canon, pay_start, bt.msg_end), "re-serialised payload differs from the canonical bytes");
+            std::mem::forget(pb);
+            kani::cover!(true, "parsed message re-serialised");
+        }
+        _ => assert!(false, "encoding rejected"),
+    }
+    std::mem::forget(r);
+}
+
+macro_rules! c16_rt {
+    ($name:ident, $uw:expr, $shape:expr) => {
+        #[kani::proof]
+        #[kani::unwind($uw)]
+        #[kani::stub(std::fmt::format, crate::models::fmt_format_stub)]
+        #[kani::stub(core::str::from_utf8, crate::models::from_utf8_stub)]
+        #[kani::stub(dlt_core::parse::forward_to_next_storage_header, crate::models::forward_stub)]
+        fn $name() {
+            let s: Shape = $shape;
+            let bt = build(&s, 0, None, None);
+            reserialise_units(&s, &bt, bt.buf.slice());
+        }
+    };
+}
+
+c16_rt!(c16_rt_control_le, 24, Shape { storage: false, htyp: H_EXT_LE, msin: M_CTRL_RESP, ids: IDS_FULL, payload: P::Control(2) });
+c16_rt!(c16_rt_nonverbose_be, 24, Shape { storage: false, htyp: H_EXT_BE, msin: M_LOG_WARN_NV, ids: IDS_FULL, payload: P::NonVerbose(2) });
+c16_rt!(c16_rt_nettrace_be, 24, Shape { storage: false, htyp: H_EXT_BE, msin: M_NW_CAN_V, ids: IDS_FULL, payload: P::NetTrace(&[2]) });
+c16_rt!(c16_rt_verbose_bool_le, 24, Shape { storage: false, htyp: H_EXT_LE, msin: M_LOG_INFO_V, ids: IDS_FULL, payload: P::Verbose(&[arg(AK::Bool)]) });
+c16_rt!(c16_rt_verbose_u16_be, 24, Shape { storage: false, htyp: H_EXT_BE, msin: M_LOG_INFO_V, ids: IDS_SHORT, payload: P::Verbose(&[arg(AK::U(2))]) });
